@@ -46,6 +46,12 @@ pub struct Case {
     /// (per round: offered index per thread, and whether fetch_max is used)
     #[serde(default)]
     races: Vec<Vec<(bool, usize)>>,
+    /// swap rounds: in every round all threads `swap` one id each into a fresh cell at the same instant
+    #[serde(default)]
+    swap_rounds: Vec<Vec<usize>>,
+    /// taker rounds: one thread `update`s the round's id while another `swap`s NEVER in (takes the current id)
+    #[serde(default)]
+    taker_rounds: Vec<usize>,
 }
 
 pub struct C18;
@@ -68,7 +74,7 @@ impl Prop for C18 {
 
     fn rule(&self) -> String {
         "cases = (initial id, sequential op list over ReloadId::update / AtomicReloadId::{update,fetch_max,swap,store,load}, \
-         concurrent offer lists for 0..8 threads, race rounds in which 2..4 threads offer to a fresh cell at the same instant behind a spin rendezvous) over a pool of 48 ids: 40 harvested from real reloads (NEVER first) and 8 boundary counter values (2^31, 2^32+1, 2^62, 2^63-1, 2^63, 2^63+1, MAX-1, MAX) built through the verification hook; \
+         concurrent offer lists for 0..8 threads, race rounds in which 2..4 threads offer to a fresh cell at the same instant behind a spin rendezvous, swap rounds (2..4 threads swap into a fresh cell: ids handed back + final id = initial id + ids swapped in), taker rounds (update racing swap(NEVER): the id is seen exactly once)) over a pool of 48 ids: 40 harvested from real reloads (NEVER first) and 8 boundary counter values (2^31, 2^32+1, 2^62, 2^63-1, 2^63, 2^63+1, MAX-1, MAX) built through the verification hook; \
          enumerated part: every initial id x every op sequence up to the length bound over a 6-id sub-pool (NEVER, 1, 2, 2^31, 2^63, MAX). \
          non-trivial = the sequential part contains both an update that grows and one that does not, \
          or the concurrent part has >= 2 threads; distinct = different canonical JSON"
@@ -84,10 +90,11 @@ impl Prop for C18 {
 
     fn plan(&self, tier: Tier) -> Plan {
         let mut p = Plan::new(match tier {
-            Tier::Quick => 20000,
+            Tier::Quick => 12000,
             Tier::Thorough => 200_000,
         });
-        p.workers = 8;
+        // few workers: the race / swap / taker rounds keep 2..4 threads of each worker spinning at a rendezvous
+        p.workers = 4;
         p
     }
 
@@ -100,8 +107,13 @@ impl Prop for C18 {
             2 => Just(Vec::new()),
             2 => (2usize..5).prop_flat_map(|t| prop::collection::vec(prop::collection::vec((any::<bool>(), 0..POOL), t), 50..400)),
         ];
-        (0..POOL / 2, prop::collection::vec(op_strategy(POOL), 0..50), threads, races)
-            .prop_map(|(init, ops, threads, races)| to_case(&Case { init, ops, threads, races }))
+        let swap_rounds = prop_oneof![
+            3 => Just(Vec::new()),
+            1 => (2usize..5).prop_flat_map(|t| prop::collection::vec(prop::collection::vec(0..POOL, t), 50..400)),
+        ];
+        let taker_rounds = prop_oneof![3 => Just(Vec::new()), 1 => prop::collection::vec(1..POOL, 100..500)];
+        (0..POOL / 2, prop::collection::vec(op_strategy(POOL), 0..50), threads, races, swap_rounds, taker_rounds)
+            .prop_map(|(init, ops, threads, races, swap_rounds, taker_rounds)| to_case(&Case { init, ops, threads, races, swap_rounds, taker_rounds }))
             .boxed()
     }
 
@@ -139,6 +151,8 @@ impl Prop for C18 {
                     ops: s.clone(),
                     threads: Vec::new(),
                     races: Vec::new(),
+                    swap_rounds: Vec::new(),
+                    taker_rounds: Vec::new(),
                 }));
             }
         }
@@ -330,11 +344,88 @@ impl Prop for C18 {
                 }
             }
         }
+        // swap rounds: swap is one atomic exchange, so the values handed back plus the final value are exactly
+        // the initial value plus the values swapped in (as multisets)
+        if !c.swap_rounds.is_empty() && !out.failed() {
+            out.nontrivial = true;
+            out.label("swap-rounds");
+            let nthreads = c.swap_rounds[0].len();
+            let cells: Arc<Vec<AtomicReloadId>> = Arc::new(c.swap_rounds.iter().map(|_| AtomicReloadId::with_value(pool[c.init])).collect());
+            let sb = Arc::new(super::common::SpinBarrier::new(nthreads));
+            let rounds = Arc::new(c.swap_rounds.clone());
+            let joins: Vec<_> = (0..nthreads)
+                .map(|t| {
+                    let (cells, sb, rounds) = (cells.clone(), sb.clone(), rounds.clone());
+                    std::thread::spawn(move || {
+                        let pool: &'static Vec<ReloadId> = self::pool();
+                        rounds
+                            .iter()
+                            .enumerate()
+                            .map(|(r, round)| {
+                                sb.wait();
+                                cells[r].swap(pool[round[t]])
+                            })
+                            .collect::<Vec<ReloadId>>()
+                    })
+                })
+                .collect();
+            let got: Vec<Vec<ReloadId>> = joins.into_iter().map(|j| j.join().expect("swap thread")).collect();
+            for (r, round) in c.swap_rounds.iter().enumerate() {
+                let mut handed: Vec<ReloadId> = (0..nthreads).map(|t| got[t][r]).collect();
+                handed.push(cells[r].load());
+                let mut expect: Vec<ReloadId> = round.iter().map(|i| pool[*i]).collect();
+                expect.push(pool[c.init]);
+                handed.sort();
+                expect.sort();
+                check!(out, "swap-not-atomic", handed == expect, "swap round {r}: {nthreads} threads swapped {:?} into a cell holding #{}: the ids handed back plus the final id are {:?}, expected a permutation of {:?}", round, c.init, handed, expect);
+                if out.failed() {
+                    break;
+                }
+            }
+        }
+        // taker rounds: the round's id is seen exactly once - by the taker or as the final value
+        if !c.taker_rounds.is_empty() && !out.failed() {
+            out.label("taker-rounds");
+            let cells: Arc<Vec<AtomicReloadId>> = Arc::new(c.taker_rounds.iter().map(|_| AtomicReloadId::new()).collect());
+            let sb = Arc::new(super::common::SpinBarrier::new(2));
+            let rounds = Arc::new(c.taker_rounds.clone());
+            let (c1, s1, r1) = (cells.clone(), sb.clone(), rounds.clone());
+            let producer = std::thread::spawn(move || {
+                let pool: &'static Vec<ReloadId> = self::pool();
+                r1.iter()
+                    .enumerate()
+                    .map(|(r, i)| {
+                        s1.wait();
+                        c1[r].update(pool[*i])
+                    })
+                    .collect::<Vec<bool>>()
+            });
+            let (c2, s2, r2) = (cells.clone(), sb.clone(), rounds.clone());
+            let taker = std::thread::spawn(move || {
+                r2.iter()
+                    .enumerate()
+                    .map(|(r, _)| {
+                        s2.wait();
+                        c2[r].swap(ReloadId::NEVER)
+                    })
+                    .collect::<Vec<ReloadId>>()
+            });
+            let told = producer.join().expect("producer");
+            let taken = taker.join().expect("taker");
+            for (r, i) in c.taker_rounds.iter().enumerate() {
+                let id = pool[*i];
+                let seen = (taken[r] == id) as u32 + (cells[r].load() == id) as u32;
+                check!(out, "swap-not-atomic", seen == 1 && told[r], "taker round {r}: update(#{i}) on a fresh cell raced swap(NEVER): update returned {}, the taker got {:?}, the cell ends with {:?} - the id must be seen exactly once", told[r], taken[r], cells[r].load());
+                if out.failed() {
+                    break;
+                }
+            }
+        }
         out
     }
 
     fn required_labels(&self) -> Vec<&'static str> {
-        vec!["concurrent", "seq:grow+keep", "race-rounds"]
+        vec!["concurrent", "seq:grow+keep", "race-rounds", "swap-rounds", "taker-rounds"]
     }
 }
 
@@ -354,5 +445,5 @@ pub fn decode(u: &mut arbitrary::Unstructured) -> arbitrary::Result<Value> {
             _ => Op::Load,
         });
     }
-    Ok(to_case(&Case { init, ops, threads: Vec::new(), races: Vec::new() }))
+    Ok(to_case(&Case { init, ops, threads: Vec::new(), races: Vec::new(), swap_rounds: Vec::new(), taker_rounds: Vec::new() }))
 }
